@@ -234,3 +234,20 @@ Definition sd_define (signal_id source_id signal_type data_type : N) (d : sigdef
   : N + sd_result (sigdef * N) :=
   let rc := sd_validate signal_id source_id signal_type data_type in
   if rc =? 0 then inr (sd_align_fast_info (sample_size data_type) d) else inl rc.
+
+(* the loop's arguments (entries_per_summary after rounding, entries_per_data before the
+   loop), (0, 0) when the C faults before the loop.  Used only by the test generator to
+   budget long-running cases (the C loop runs entries_per_data - result times); nothing is
+   proved about it and no verdict depends on it. *)
+Definition sd_loop_args (w : N) (d : sigdef) : N * N :=
+  let d1 := sd_defaults w d in
+  if w =? 0 then (0, 0) else
+  match sd_round_up (N.max (sdf d1) SAMPLE_DECIMATE_FACTOR_MIN) (sd_multiple w) with
+  | SdFault _ => (0, 0)
+  | SdOk sdf1 =>
+    match sd_round_up (N.max (eps d1) ENTRIES_PER_SUMMARY_MIN) (N.max (sumdf d1) SUMMARY_DECIMATE_FACTOR_MIN),
+          sd_round_up (N.max (spd d1) SAMPLES_PER_DATA_MIN) sdf1 with
+    | SdOk eps1, SdOk spd1 => if sdf1 =? 0 then (0, 0) else (eps1, spd1 / sdf1)
+    | _, _ => (0, 0)
+    end
+  end.
